@@ -226,8 +226,7 @@ SubStep(st, fr) ==
                   \o <<F1("retsub", 0)>>)
     [] o = "of_fn" \/ o = "start" ->
          Push(st, (IF PB(x) > 0 THEN <<Bump(PB(x))>> ELSE <<>>) \o <<CallN(n, PV(x)), CallC(n), F1("retsub", 0)>>)
-    [] o = "from_iter" -> Push(st, IterCalls(n, PB(x), PL(x)) \o <<CallC(n), F1("retsub", 0)>>)
-    [] o = "repeat" -> Push(st, CallNs(n, RepeatSeq(PV(x), PA(x))) \o <<CallC(n), F1("retsub", 0)>>)
+    [] o = "from_iter" \/ o = "repeat" -> Push(st, <<Fr("iter", n, "", I(1), x), F1("retsub", 0)>>)
     [] o = "empty" -> Push(st, <<CallC(n), F1("retsub", 0)>>)
     [] o = "never" -> Push(st, NeverFrames(n) \o <<F1("retsub", 0)>>)
     [] o = "throw" -> Push(st, <<CallE(n, PV(x)), F1("retsub", 0)>>)
@@ -267,7 +266,7 @@ SubStep(st, fr) ==
          LET st1 == AddNode(AddNode(AddNode(AddNode(st,
                       [Node("slot", n) EXCEPT !.m = md]),
                       Node("flag", 0)),
-                      [Node("suN", 0) EXCEPT !.c = id + 1]),
+                      [Node("suN", id) EXCEPT !.c = id + 1]),
                       [Node("suS", id) EXCEPT !.c = id + 1]) IN
          Push(st1, <<Sub(S2(x), id + 2), Sub(S1(x), id + 3), F0("mkzipr")>>)
     [] o = "sample" ->
@@ -327,6 +326,14 @@ Step(st) ==
     [] f = "smptake" ->           \* sampler tick, holding the value cell
          LET nd == s0.nodes[fr.n] vc == s0.nodes[nd.c] IN
          IF IsSome(vc.v) THEN Push([s0 EXCEPT !.nodes[nd.c].v = NoneV], <<CallN(nd.d, Unwrap(vc.v))>>) ELSE s0
+    [] f = "iter" ->              \* ObservableIter: while !observer.is_finished() { pull one item, deliver it }; complete
+         LET items == IF Op(fr.x) = "repeat" THEN RepeatSeq(PV(fr.x), PA(fr.x)) ELSE PL(fr.x)
+             i == fr.v[2]
+             fin == Fin(s0, fr.n) IN
+         IF fin = 2 THEN Fault(s0, "reentry")
+         ELSE IF fin = 1 \/ i > Len(items) THEN Push(s0, <<CallC(fr.n)>>)
+         ELSE Push(s0, (IF PB(fr.x) > 0 THEN <<Bump(PB(fr.x))>> ELSE <<>>)
+                       \o <<CallN(fr.n, items[i]), Fr("iter", fr.n, "", I(i + 1), fr.x)>>)
     [] f = "setstatus" -> [s0 EXCEPT !.nodes[fr.n].n = fr.x]
     [] f = "share2" ->            \* holding the share cell (node fr.n: g = connected, n = subject); next frame carries the observer
          LET cell == s0.nodes[fr.n]
